@@ -328,8 +328,25 @@ impl<D: DecisionDiagram<State = St>> DecisionDiagram for RecDD<D> {
 
 /// Cache wrapper (the solver creates it through Default): counts, checks the contract the solver relies on,
 /// and (under the controlled scheduler) makes every operation issued outside a critical section a scheduling point.
-pub struct RecCache { inner: SimpleCache<St>, nb_layers: AtomicUsize }
-impl Default for RecCache { fn default() -> Self { RecCache { inner: SimpleCache::default(), nb_layers: AtomicUsize::new(0) } } }
+pub struct RecCache { inner: SimpleCache<St>, nb_layers: AtomicUsize,
+    /// under the controlled scheduler: the REAL content of the store for every key ever touched (read back after each
+    /// write), whose hash is part of the fingerprint of the global state
+    mirror: std::sync::Mutex<std::collections::BTreeMap<(St, usize), (isize, bool)>> }
+impl Default for RecCache { fn default() -> Self { RecCache { inner: SimpleCache::default(), nb_layers: AtomicUsize::new(0), mirror: Default::default() } } }
+impl RecCache {
+    fn refresh(&self, touched: Option<(St, usize)>) {
+        if !crate::sched::in_worker() { return; }
+        let ex = match crate::sched::myex() { Some(x) => x, None => return };
+        let mut m = self.mirror.lock().unwrap();
+        match touched {
+            Some((s, d)) => { match self.inner.get_threshold(&s, d) { Some(t) => { m.insert((s, d), (t.value, t.explored)); } None => { m.remove(&(s, d)); } } }
+            None => { let keys: Vec<(St, usize)> = m.keys().copied().collect(); for (s, d) in keys { match self.inner.get_threshold(&s, d) { Some(t) => { m.insert((s, d), (t.value, t.explored)); } None => { m.remove(&(s, d)); } } } }
+        }
+        let mut h = 0u64;
+        for (k, v) in m.iter() { h = crate::sched::mix(h, crate::sched::hash_of(&(k, v))); }
+        ex.cache_fp.store(h, SeqCst);
+    }
+}
 thread_local! {
     pub static CACHE_ALARMS: RefCell<Vec<String>> = RefCell::new(vec![]);
 }
@@ -342,6 +359,7 @@ impl Cache for RecCache {
         crate::sched::shared_op_yield();
         if d >= self.nb_layers.load(SeqCst) { cache_alarm(format!("get_threshold at depth {} beyond the last layer", d)); return None; }
         let r = self.inner.get_threshold(s, d);
+        if crate::sched::in_worker() && !crate::sched::in_critical_section() { crate::sched::note_read(crate::sched::hash_of(&r.map(|t| (t.value, t.explored)))); }
         PROTO.with(|p| { let mut p = p.borrow_mut(); p.stats.cache_gets += 1; if r.is_some() { p.stats.cache_hits += 1; } });
         r
     }
@@ -349,22 +367,48 @@ impl Cache for RecCache {
         crate::sched::shared_op_yield();
         if d >= self.nb_layers.load(SeqCst) { cache_alarm(format!("update_threshold at depth {} beyond the last layer", d)); return; }
         PROTO.with(|p| p.borrow_mut().stats.cache_updates += 1);
-        self.inner.update_threshold(s, d, v, e)
+        let key = (*s, d);
+        self.inner.update_threshold(s, d, v, e);
+        self.refresh(Some(key));
     }
-    fn clear_layer(&self, d: usize) { crate::sched::shared_op_yield(); self.inner.clear_layer(d) }
-    fn clear(&self) { crate::sched::shared_op_yield(); self.inner.clear() }
+    fn clear_layer(&self, d: usize) { crate::sched::shared_op_yield(); self.inner.clear_layer(d); self.refresh(None); }
+    fn clear(&self) { crate::sched::shared_op_yield(); self.inner.clear(); self.refresh(None); }
 }
 
 /// Dominance checker wrapper
-pub struct RecDom<'a> { pub inner: Option<SimpleDominanceChecker<GenDom<'a>>> }
+pub struct RecDom<'a> { pub inner: Option<SimpleDominanceChecker<GenDom<'a>>>, model: &'a dyn Model,
+    /// under the controlled scheduler: per depth (hash of what happened before the last clear_layer, per key the hash
+    /// of the sequence of queries and answers since then): the content of the store is a function of that history, and
+    /// queries on different keys commute
+    hist: std::sync::Mutex<std::collections::BTreeMap<usize, (u64, std::collections::BTreeMap<Option<u32>, u64>)>> }
 impl<'a> RecDom<'a> {
     pub fn new(m: &'a dyn Model) -> Self {
-        if m.dom_dims() > 0 { RecDom { inner: Some(SimpleDominanceChecker::new(GenDom(m), m.nb_variables())) } } else { RecDom { inner: None } }
+        if m.dom_dims() > 0 { RecDom { inner: Some(SimpleDominanceChecker::new(GenDom(m), m.nb_variables())), model: m, hist: Default::default() } } else { RecDom { inner: None, model: m, hist: Default::default() } }
+    }
+    fn publish(&self, h: &std::collections::BTreeMap<usize, (u64, std::collections::BTreeMap<Option<u32>, u64>)>) {
+        if let Some(ex) = crate::sched::myex() {
+            let mut x = 0u64;
+            for (d, (epoch, keys)) in h.iter() { x = crate::sched::mix(x, *d as u64); x = crate::sched::mix(x, *epoch); for (k, v) in keys.iter() { x = crate::sched::mix(x, crate::sched::hash_of(k)); x = crate::sched::mix(x, *v); } }
+            ex.dom_fp.store(x, SeqCst);
+        }
     }
 }
 impl DominanceChecker for RecDom<'_> {
     type State = St;
-    fn clear_layer(&self, depth: usize) { if let Some(i) = &self.inner { crate::sched::shared_op_yield(); i.clear_layer(depth) } }
+    fn clear_layer(&self, depth: usize) {
+        if let Some(i) = &self.inner {
+            crate::sched::shared_op_yield();
+            i.clear_layer(depth);
+            if crate::sched::in_worker() {
+                let mut h = self.hist.lock().unwrap();
+                let e = h.entry(depth).or_insert((0, Default::default()));
+                let mut x = crate::sched::mix(e.0, 0xC1EA);
+                for (k, v) in e.1.iter() { x = crate::sched::mix(x, crate::sched::hash_of(k)); x = crate::sched::mix(x, *v); }
+                *e = (x, Default::default());
+                self.publish(&h);
+            }
+        }
+    }
     fn is_dominated_or_insert(&self, state: Arc<St>, depth: usize, value: isize) -> DominanceCheckResult {
         match &self.inner {
             None => DominanceCheckResult { dominated: false, threshold: None },
@@ -372,6 +416,16 @@ impl DominanceChecker for RecDom<'_> {
                 crate::sched::shared_op_yield();
                 let st = *state;
                 let r = i.is_dominated_or_insert(state, depth, value);
+                if crate::sched::in_worker() {
+                    let q = crate::sched::hash_of(&(st, value, r.dominated, r.threshold));
+                    if !crate::sched::in_critical_section() { crate::sched::note_read(q); }
+                    let mut h = self.hist.lock().unwrap();
+                    let e = h.entry(depth).or_insert((0, Default::default()));
+                    let k = self.model.dom_key(&st);
+                    let v = e.1.entry(k).or_insert(0);
+                    *v = crate::sched::mix(*v, q);
+                    self.publish(&h);
+                }
                 if std::env::var("VERIF_TRACE_DOM").is_ok() { eprintln!("dominance query state {:?} depth {} value {} -> dominated {} threshold {:?}", st, depth, value, r.dominated, r.threshold); }
                 PROTO.with(|p| { let mut p = p.borrow_mut(); p.stats.dom_queries += 1; if r.dominated { p.stats.dom_pruned += 1; } });
                 r
